@@ -638,3 +638,37 @@ Proof.
   exact (path_split point pt_add None pt_neg pt_mul secp_G secp_n pt_is_zero ser_pub hmac_sha512 hash160
            GL pt_is_zero_spec x l1 l2 Hl).
 Qed.
+
+(* end to end, for the library itself (premise: the group laws of the executable curve): whenever a
+   non-hardened path is derived both from a private key and from its public() version, the public
+   part of the first result is the second result *)
+Lemma lib_public_private_agree :
+  group_laws pt_add None pt_neg pt_mul secp_G secp_n ->
+  forall x path items Y1 Y2,
+    xc x <> [] ->
+    lib_parse_path path = Some (false, items) ->
+    Forall (fun i => 0 <= i < two31) (snd (sem (false, items))) ->
+    lib_subkey_for_path (XPrv x) path = Some Y1 ->
+    lib_subkey_for_path (lib_public (XPrv x)) path = Some Y2 ->
+    lib_public Y1 = Y2.
+Proof.
+  intros GL x path items Y1 Y2 Hc Ep Hl E1 E2.
+  rewrite (lib_is_spec_private x path items Hc Ep) in E1.
+  assert (Hwf : wf_key (lib_public (XPrv x))).
+  { split; [exact Hc | apply secp_pub_range]. }
+  destruct (lib_is_spec_sound _ path Y2 Hwf E2) as (pp & Epp & E2').
+  assert (pp = (false, items)) by congruence. subst pp.
+  unfold s_subkey, spec_subkey in E1, E2'. cbn [fst snd sem] in *.
+  set (l := map sem_item items) in *.
+  change (spec_derive point pt_add pt_mul secp_G secp_n pt_is_zero ser_pub hmac_sha512 hash160) with s_derive in *.
+  unfold s_derive, spec_derive in E1, E2'. cbn [lib_public] in E2'.
+  fold (s_derive_priv x l) in E1.
+  change (spec_derive_pub point pt_add pt_mul secp_G secp_n pt_is_zero ser_pub hmac_sha512 hash160)
+    with s_derive_pub in E2'.
+  pose proof (path_split_secp GL x [] l Hl) as Hs. cbn [app s_derive_priv spec_derive_priv obind] in Hs.
+  destruct (s_derive_priv x l) as [y1|]; [|discriminate]. cbn [option_map] in E1, Hs.
+  assert (Y1 = XPrv y1) by congruence. subst Y1.
+  change ({| XK := secp_pub (xk x); XC := xc x; XM := xm x |}) with (s_neuter_prv x) in E2'.
+  rewrite <- Hs in E2'. cbn [option_map] in E2'.
+  assert (Y2 = XPub (s_neuter_prv y1)) by congruence. subst Y2. reflexivity.
+Qed.
